@@ -12,7 +12,7 @@ EXPLANATION = ('Structural necessary conditions of C13: every JobTaskState trans
                'only under !is_open && no active task; handle_submit performs no effect on a path to an error response; auto-assigned ids '
                'continue after Job::max_id(); submit-and-watch registers the listener before the executor can run anything else.')
 NOT_DECIDED = ['job_status derivation (decision list over numbers)', 'per-moment equality of counters with a recount over all histories']
-RELATED = {'C10': ['R10.6'], 'C14': ['R14.5']}
+RELATED = {'C10': ['R10.6'], 'C14': ['R14.5'], 'C03': ['R03.8']}
 ASSUMPTIONS = ['single-threaded executor: interleaving only at await']
 
 SUBMIT = HQ + 'client::submit::'
